@@ -38,6 +38,9 @@ def m_source(base: str, order: int) -> str:
     if base == "references-sibling":
         head.append(f"from {PKG}.sibmod import Sibling")
         decls.append("def uses_sibling(s: Sibling) -> Sibling:\n    ...\n")
+    if base == "private-mixin":
+        head.append(f"from {PKG}._mixin import _Summarizable")
+        decls.append("class Report(_Summarizable):\n    def render(self) -> int:\n        ...\n")
     if base == "unanalysed-names":
         decls.append("def odd(a: list[Helper, Other], b: set[Other, int]) -> int:\n    ...\n")
     if order == 2:
@@ -57,10 +60,15 @@ def package(base: str, u: int, u2: int, order: int, ri: int = 0):
     files[mrel] = m_source(base, order)
     if base == "references-sibling":
         files["sibmod.py"] = "class Sibling:\n    pass\n"
-    content = {1: U_PLAIN, 2: U_CHANGED, 3: U_SAME}
+    if base == "private-mixin":
+        files["tables.py"] = "class Table:\n    pass\n"
+        files["_mixin.py"] = f"from {PKG}.tables import Table\n\n\nclass _Summarizable:\n    def summarize(self, t: Table) -> Table:\n        ...\n"
+    sibling = (f"from {PKG}._mixin import _Summarizable\n\n\nclass OtherReport(_Summarizable):\n    def render(self) -> int:\n        ...\n"
+               if base == "private-mixin" else U_PLAIN)
+    content = {1: U_PLAIN, 2: U_CHANGED, 3: U_SAME, 4: sibling}
     if u:
         files["umod.py"] = content[u]
-        files["amod.py"] = TRAIL.format(body=content[u].replace("Unrelated", "UnrelatedA").replace("unrelated_fun", "unrelated_fun_a"), name="ARec")
+        files["amod.py"] = content[u].replace("OtherReport", "OtherReportA") if u == 4 else TRAIL.format(body=content[u].replace("Unrelated", "UnrelatedA").replace("unrelated_fun", "unrelated_fun_a"), name="ARec")
     if u2:
         files["renamed_umod.py"] = content[u2]
     if ri:      # the root __init__ re-exports the unrelated module's class that is named like the one M uses
@@ -73,7 +81,7 @@ START_U = {"rename-unrelated": 1, "change-unrelated": 1, "remove-unrelated": 1}
 
 def apply(kind, u):
     return {"add-plain": (1, 0, 1), "add-same-names": (3, 0, 1), "rename-unrelated": (0, u, 1), "change-unrelated": (2, 0, 1),
-            "remove-unrelated": (0, 0, 1), "permute-own": (u, 0, 2), "reexport-unrelated-same-name": (3, 0, 1, 1)}[kind]
+            "remove-unrelated": (0, 0, 1), "permute-own": (u, 0, 2), "reexport-unrelated-same-name": (3, 0, 1, 1), "add-sibling-subclass": (4, 0, 1)}[kind]
 
 
 def facts(r):
